@@ -436,7 +436,12 @@ func writeParam(b *strings.Builder, dir string, p Param, indent string) {
 	if dir != "" {
 		b.WriteString(dir + " ")
 	}
-	b.WriteString(p.Type.String() + " " + p.Name)
+	if dir == "out" && p.Name == "default" {
+		// the legacy unnamed output: `out T,` declares an output called "default"
+		b.WriteString(p.Type.String())
+	} else {
+		b.WriteString(p.Type.String() + " " + p.Name)
+	}
 	if p.Help != "" || p.OutName != "" {
 		b.WriteString(" " + QuoteString(p.Help))
 	}
